@@ -525,7 +525,9 @@ def level_stage(ctx: Ctx, insts, tabs, dialects):
                     ctx.hist("level_family_x_dialect", f"{d}:{inst.family}")
                     ctx.hist("engine_outcome", str(got[i]))
                     if use_coq and all(coqable(v) for c in r.values() for v in c):
-                        vs = [T.coq_val(pyval(r[c][0 if s else 1])) for s, c in hdr]
+                        types = tabs[tname][0]
+                        vs = [T.coq_val(pyval(float(r[c][0 if s else 1]) if types[c] == "DOUBLE" and isinstance(r[c][0 if s else 1], int)
+                                              else r[c][0 if s else 1])) for s, c in hdr]
                         orc = coq_list([coq_orow(o) for o in oracle_rows(inst, r, d, tname)], "orow")
                         coq_rows.append(f"({coq_list(vs, 'val')}, {orc}, {TVC[got[i]]}%nat)")
                         idx.append(i)
